@@ -1093,7 +1093,10 @@ def gen_C01(r, n, pool=None):
         sub = gen_C09(r, max(10, n // 400))
         for ln, m in zip(sub.lines, sub.meta):
             if m['kind'] == 'from':
-                c.add(ln, op=ln.split()[0])
+                if m.get('impl_only'):
+                    c.add(ln, op=ln.split()[0], impl_only=True)
+                else:
+                    c.add(ln, op=ln.split()[0])
         # results at the subnormal edge: operands whose square / cube / 4th power / product has magnitude 2^-1080 .. 2^-940, single-word
         # operands (low word exactly 0) included — where an un-renormalised error term rounds onto a half-ulp tie
         def edge_tf(lo_e, hi_e):
@@ -2284,6 +2287,21 @@ def gen_C18(r, n):
         c.add('TwoFloat.cosh %s' % w2(z), kind='one')
     c.add('TwoFloat.acosh %s' % w2((1.0, 0.0)), kind='zero')
     c.add('TwoFloat.acosh %s' % w2((1.0, -0.0)), kind='zero')
+    # special high words whose argument differs from the special point only in the low word (a test of `self.hi == 1.0` instead of
+    # `self == 1.0` is invisible to plain-f64 arguments): acosh just above 1 = (1, lo > 0), and every function at 1/4, 1/2, 1, 2
+    for hi_ in (1.0, 0.5, 0.25, 2.0, -1.0, -0.5):
+        for _ in range(max(6, n // 20)):
+            k_ = r.choice([r.rng(54, 70), r.rng(54, 110), r.rng(54, 1000)])
+            lo_ = math.ldexp(1.0 + r.below(2**20) / 2.0**20, -k_ - 1) * abs(hi_) * r.choice([1.0, -1.0])
+            x_ = (hi_, lo_)
+            if not fp.is_valid(*x_):
+                continue
+            for fn in ('cosh', 'sinh', 'tanh', 'asinh'):
+                c.add('TwoFloat.%s %s' % (fn, w2(x_)), kind=fn, x=x_)
+            if V(*x_) > 1:
+                c.add('TwoFloat.acosh %s' % w2(x_), kind='acosh', x=x_)
+            elif abs(V(*x_)) <= 1 - Fr(1, 2**10):
+                c.add('TwoFloat.atanh %s' % w2(x_), kind='atanh', x=x_)
     return c
 
 def chk_C18(c, ans):
